@@ -10,6 +10,8 @@
            that the next sweep walks over the last byte of the segment (a segment size that is not a multiple of
            the allocation unit leaves a tail that belongs to no chunk)
          4 policy stream (see policy_stream below): the four coalescing cases of the sweep each decide a growth question
+         5 hole stream (see hole_stream below): <operations> rounds; a FULL heap of one size class, every other object
+           dropped => holes of EXACTLY one object; all of them must be refilled without a collection or a growth
    The trace is written by the VERIF hooks (CHIBI_VERIF_TRACE, CHIBI_VERIF_SWEEPLOG). */
 #include <stdio.h>
 #include <stdlib.h>
@@ -80,6 +82,59 @@ static int policy_stream (sexp ctx) {
   return ok;
 }
 
+/* mode 5, hole stream (round 4; theorems fast_path_count / exact_fit_refilled).  Round r uses the size class 32 bytes
+   (pairs) when r is even, 64 bytes (6-slot vectors chained through slot 0) when odd.  The heap is filled with objects of
+   the class alternately in the lists E and O until no free chunk can take one; O is dropped and collected: every O
+   object leaves a hole of EXACTLY its own size between two live E objects.  cap = sum over the free chunks of
+   floor(size / class size) objects are then allocated: each must be served by sexp_try_alloc alone (no collection,
+   no new segment) and afterwards no chunk that can take an object of the class may be left.  All loops are bounded by
+   the heap size, so a damaged allocator cannot make this run for ever. */
+static unsigned long n_heaps (sexp ctx) { unsigned long n = 0; sexp_heap h; for (h = sexp_context_heap(ctx); h; h = h->next) n++; return n; }
+static sexp mk_class (sexp ctx, int cls, sexp next) {
+  sexp x;
+  if (!cls) return sexp_cons(ctx, SEXP_FALSE, next);
+  x = sexp_make_vector(ctx, sexp_make_fixnum(6), SEXP_FALSE);
+  if (x && !sexp_exceptionp(x)) sexp_vector_set(x, SEXP_ZERO, next);
+  return x;
+}
+static void hole_stream (sexp ctx, unsigned long rounds) {
+  unsigned long r, k, limit, sz, nh, nh2, exact, cap, gcs, done;
+  sexp_heap h; sexp_free_list q;
+  sexp x;
+  sexp_gc_var2(E, O);
+  sexp_gc_preserve2(ctx, E, O);
+  for (r = 0; r < rounds; r++) {
+    int cls = (int)(r & 1);
+    sz = cls ? 64 : 32;
+    E = O = SEXP_NULL;
+    sexp_gc(ctx, NULL);
+    nh = n_heaps(ctx);
+    limit = 100; for (h = sexp_context_heap(ctx); h; h = h->next) limit += h->size / 32;
+    for (k = 0; k < limit && has_free(ctx, sz) && n_heaps(ctx) == nh; k++) {
+      x = mk_class(ctx, cls, (k & 1) ? O : E);
+      if (!x || sexp_exceptionp(x)) break;
+      if (k & 1) O = x; else E = x;
+    }
+    O = SEXP_NULL;
+    sexp_gc(ctx, NULL);
+    nh = n_heaps(ctx);
+    exact = cap = 0;
+    for (h = sexp_context_heap(ctx); h; h = h->next)
+      for (q = h->free_list->next; q; q = q->next) { cap += q->size / sz; if (q->size == sz) exact++; }
+    gcs = sexp_context_gc_count(ctx);
+    for (done = 0; done < cap; done++) {
+      x = mk_class(ctx, cls, O);
+      if (!x || sexp_exceptionp(x)) break;
+      O = x;
+      if (sexp_context_gc_count(ctx) != gcs || n_heaps(ctx) != nh) break;
+    }
+    nh2 = n_heaps(ctx);
+    printf("HOLES round=%lu size=%lu exact=%lu cap=%lu refilled=%lu collections=%lu heaps=%lu/%lu left=%d\n", r, sz, exact, cap, done,
+           (unsigned long)(sexp_context_gc_count(ctx) - gcs), nh, nh2, has_free(ctx, sz));
+  }
+  sexp_gc_release2(ctx);
+}
+
 static sexp_heap last_heap (sexp ctx) { sexp_heap h = sexp_context_heap(ctx); while (h->next) h = h->next; return h; }
 
 /* mode 3 */
@@ -139,6 +194,7 @@ int main (int argc, char **argv) {
   if (sexp_exceptionp(root)) { fprintf(stderr, "no root table\n"); return 2; }
   if (mode == 3) { growth_stream(ctx, root, n); n = 0; }
   if (mode == 4) { policy_stream(ctx); n = 0; }
+  if (mode == 5) { hole_stream(ctx, n); n = 0; }
   for (i = 0; i < n; i++) {
     switch (rnd(10)) {
     case 0: tmp = sexp_cons(ctx, SEXP_NULL, SEXP_NULL); break;
